@@ -33,7 +33,10 @@ META = {
             "document into NULL + non-empty error. OBSERVED ONLY (no theorem: crash/UB-freedom is not expressible by an executable model): every "
             "generated and byte-mutated document (truncations, flipped bytes, deleted/duplicated spans, deep nesting, huge numbers, long values) is run "
             "through mj_parseXMLString+mj_compile and mj_loadXML(+mj_forward) in forked children with an alarm; any signal/abort/exit instead of 'model "
-            "or NULL + non-empty error' is a violation (thorough tier additionally with -fsanitize=address,undefined). NOT COVERED: tinyxml2 itself "
+            "or NULL + non-empty error' is a violation (thorough tier additionally with -fsanitize=address,undefined); crashing generated documents are "
+            "minimised automatically and the innermost remaining element is part of the signature. This stream found two defects that are now repaired in "
+            "/repo and kept in a fixed corpus with revert mutants: <asset><model> without file= aborted (bad_optional_access), an unknown <layer role> "
+            "keyword exited the process through mju_error. A URDF model and its byte mutations are part of the crash stream (observation only). NOT COVERED: tinyxml2 itself "
             "(the XML tokenizer under test is the harness shim harness/stubs/tinyxml2_shim.cc), URDF, files/includes/assets on disk, src/xml/mjz, "
             "semantic (non-schema) checks of the reader, numeric value conversion of the lexers (strtod/istream).",
     "note": "Trusted: Coq kernel; hand-written models Model/Schema.v, Model/Lex.v (tied by correspondence on the cases of this run); translator "
@@ -702,6 +705,24 @@ SEEDS = [
 ]
 
 
+URDF_SEED = """<?xml version="1.0"?>
+<robot name="two_link">
+  <mujoco><compiler fusestatic="false" discardvisual="false"/></mujoco>
+  <material name="blue"><color rgba="0 0 0.8 1"/></material>
+  <link name="base"><inertial><origin xyz="0 0 0" rpy="0 0 0"/><mass value="1"/><inertia ixx="0.1" ixy="0" ixz="0" iyy="0.1" iyz="0" izz="0.1"/></inertial>
+    <visual><geometry><box size="0.2 0.2 0.2"/></geometry><material name="blue"/></visual>
+    <collision><geometry><box size="0.2 0.2 0.2"/></geometry></collision></link>
+  <link name="arm"><inertial><origin xyz="0 0 0.25"/><mass value="0.5"/><inertia ixx="0.01" ixy="0" ixz="0" iyy="0.01" iyz="0" izz="0.01"/></inertial>
+    <collision><origin xyz="0 0 0.25"/><geometry><cylinder radius="0.03" length="0.5"/></geometry></collision></link>
+  <link name="tip"><inertial><mass value="0.1"/><inertia ixx="0.001" ixy="0" ixz="0" iyy="0.001" iyz="0" izz="0.001"/></inertial>
+    <collision><geometry><sphere radius="0.04"/></geometry></collision></link>
+  <joint name="shoulder" type="revolute"><parent link="base"/><child link="arm"/><origin xyz="0 0 0.1" rpy="0 0 0"/><axis xyz="0 1 0"/>
+    <limit lower="-1.5" upper="1.5" effort="10" velocity="1"/><dynamics damping="0.1" friction="0.01"/></joint>
+  <joint name="wrist" type="prismatic"><parent link="arm"/><child link="tip"/><origin xyz="0 0 0.5"/><axis xyz="0 0 1"/><limit lower="0" upper="0.1"/></joint>
+</robot>
+"""
+
+
 def byte_mutations(seed, rng, n):
     b = seed.encode()
     out = []
@@ -763,6 +784,19 @@ def deep_docs():
 
 # ------------------------------------------------------------------ the check
 def run(ctx):
+    """per-process scratch directory, so that several ./check C37 runs (self-tests) can overlap"""
+    import shutil
+    base = ctx.scratch
+    ctx.scratch = os.path.join(base, "run_%d" % os.getpid())
+    os.makedirs(ctx.scratch, exist_ok=True)
+    try:
+        _run(ctx)
+    finally:
+        shutil.rmtree(ctx.scratch, ignore_errors=True)
+        ctx.scratch = base
+
+
+def _run(ctx):
     rng = ctx.rng
     quick = ctx.tier == "quick"
     holder = {}
@@ -1093,7 +1127,10 @@ def run(ctx):
             crash_el[len(crash_docs)] = el
             crash_docs.append(("fixed", serialize(el).encode()))
     for s in SEEDS:
-        crash_docs += byte_mutations(s, rng, 60 if quick else 500)
+        crash_docs += byte_mutations(s, rng, 60 if quick else 350)
+    # URDF: observation only (the schema half does not apply to <robot> documents)
+    crash_docs.append(("urdf", URDF_SEED.encode()))
+    crash_docs += byte_mutations(URDF_SEED, rng, 40 if quick else 400)
     gen_valid = [texts[i] for i, (k, _, _) in enumerate(docs) if k == "valid"]
     gen_valid_el = [docs[i][1] for i, (k, _, _) in enumerate(docs) if k == "valid"]
     for t, el in list(zip(gen_valid, gen_valid_el))[: (40 if quick else 300)]:
@@ -1207,6 +1244,12 @@ def typed_cases(tree, readtab, maps, rng, quick):
         for r in req:
             uid[0] += 1
             base_attrs.append((r["attr"], typed_value(r, maps, rng, uid[0])))
+        for r in req:
+            def mkreq(drop):
+                attrs = [(a, x) for a, x in base_attrs if not (drop and a == r["attr"])]
+                return wrap("<%s%s/>" % (name, "".join(' %s="%s"' % (a, xml_escape(x)) for a, x in attrs)), name)
+            if name not in defaults and mkreq(False) is not None:
+                cases.append({"elem": name, "attr": r["attr"], "what": "required", "good": mkreq(False), "bad": mkreq(True)})
         for r in rows:
             muts = []
             try:
@@ -1318,9 +1361,15 @@ def lexer_tie(ctx, exe, rng, quick, alarm, maps):
                 if okexp:
                     alarm("impl_violation", {"text": c[3], "len": c[2], "exact": c[1] == "d", "api": "mjXUtil::ReadAttr<double>"}, expected="accepted: %d well-formed numerals within bounds" % ntok,
                           observed=ln, signature={"site": "mjXUtil::ReadAttr", "class": "rejects-wellformed"}, theorem="C37_numlist_accepts_iff")
-            coq_cases.append("(0, %d, %s, %s, [], %s)" % (c[2], "true" if c[1] == "d" else "false", txt, res))
+            coq_cases.append("(0, %d, %s, %s, (@nil string), %s)" % (c[2], "true" if c[1] == "d" else "false", txt, res))
         else:
             keys = c[2]
+            toks = c[3].split()
+            valid_kw = (c[3] in keys) if c[1] == "k" else (len(toks) > 0 and all(t in keys for t in toks) and len(set(toks)) == len(toks))
+            if valid_kw != ln.startswith("LEX OK") and (c[1] == "k" or toks):
+                alarm("impl_violation", {"text": c[3], "keys": keys, "api": "mjXUtil::MapValue" + ("s" if c[1] == "K" else "")},
+                      expected="accepted: valid keyword(s)" if valid_kw else "rejected: not a list of distinct valid keywords", observed=ln[:200],
+                      signature={"site": "mjXUtil::MapValue", "class": "rejects-valid-keyword" if valid_kw else "accepts-invalid-keyword"}, theorem="C37_keyword_accepts_iff")
             if ln.startswith("LEX OK"):
                 f = ln.split()
                 if c[1] == "k":
@@ -1342,14 +1391,53 @@ def lexer_tie(ctx, exe, rng, quick, alarm, maps):
     return len(cases)
 
 
+def build_san_lib(repo, extra):
+    """src/xml + src/user + the shim instrumented with ASan/UBSan; src/engine objects as in the plain
+    library (shared object cache) - the parser, reader and compiler are what the documents drive."""
+    import glob, subprocess
+    from concurrent.futures import ThreadPoolExecutor
+    os.makedirs(B.OBJ, exist_ok=True)
+    hdig = B.header_digest(repo)
+    xdig = B.xml_digest(repo, hdig)
+    jobs = []
+    for src in B.lib_sources(repo):
+        if os.path.basename(src) == "xml_stub.c":
+            continue
+        inst = "/src/user/" in src
+        jobs.append((src, hdig, extra if inst else ()))
+    for src in B.xml_sources(repo) + [os.path.join(B.STUBS, "tinyxml2_shim.cc")]:
+        jobs.append((src, xdig, extra))
+    with ThreadPoolExecutor(max_workers=8) as ex:
+        res = list(ex.map(lambda j: B.compile_one(j[0], repo, j[1], j[2]), jobs))
+    errs = [e for (_, e) in res if e]
+    if errs:
+        raise RuntimeError("\n".join(errs))
+    objs = [o for (o, _) in res]
+    lib = os.path.join(B.BUILD, "lib", "libmj_xml_san_%s.a" % B.sha(("\n".join(objs)).encode())[:24])
+    if not os.path.exists(lib):
+        os.makedirs(os.path.dirname(lib), exist_ok=True)
+        tmp = lib + ".%d.tmp" % os.getpid()
+        if os.path.exists(tmp):
+            os.remove(tmp)
+        subprocess.run(["ar", "rcs", tmp] + objs, check=True)
+        os.replace(tmp, lib)
+        for old in sorted(glob.glob(os.path.join(B.BUILD, "lib", "libmj_xml_san_*.a")), key=os.path.getmtime)[:-3]:
+            try:
+                os.remove(old)
+            except OSError:
+                pass
+    return lib
+
+
 def sanitizer_run(ctx, crash_docs, alarm):
     """thorough tier: src/xml + src/user of the working tree with -fsanitize=address,undefined"""
     import time
     t0 = time.time()
-    extra = ("-fsanitize=address,undefined", "-fno-omit-frame-pointer", "-fno-sanitize-recover=undefined")
+    # -U__SANITIZE_ADDRESS__: include/mujoco/mjsan.h's ASan-only stack instrumentation uses clang-only syntax and needs engine support
+    extra = ("-fsanitize=address,undefined", "-U__SANITIZE_ADDRESS__", "-fno-omit-frame-pointer", "-fno-sanitize-recover=undefined")
     with F.Lock("libxml_san"):
         try:
-            lib, info = B.build_lib_xml(ctx.repo, extra=extra)
+            lib = build_san_lib(ctx.repo, extra)
             exe = B.build_driver("c37_xml_san", ["c37_xml.cc"], ctx.repo, lib, extra=extra, link_extra=("-fsanitize=address,undefined",))
         except RuntimeError as e:
             return {"built": False, "why": str(e)[-300:]}
